@@ -45,12 +45,15 @@ import (
 	"github.com/fxamacker/cbor/v2"
 	"github.com/pquerna/otp/totp"
 	"github.com/tstranex/u2f"
+	"golang.org/x/crypto/bcrypt"
 )
 
 // ---------------------------------------------------------------- names
 
 var c08UserID = map[string]int{"": 0, "alice": 1, "bob": 2, "carol": 3, "admin": 7, "gadmin": 8, "autoadm": 9,
-	"svc-automation": 30, "svc-grp": 31, "newuser": 40, "ghost": 41, "dave": 4,
+	"svc-automation": 30, "svc-grp": 31, "newuser": 40, "ghost": 41, "dave": 4, "tracenew": 44,
+	// other spellings of existing names: separate accounts when disable_username_normalization is set
+	"Alice": 42, "ALICE": 43, "Admin": 45, "Bob": 46,
 	// names that merely resemble a configured administrator / automation identity / automation admin
 	"admin2": 5, "svc-automation2": 32, "autoadm2": 6}
 var c08GroupID = map[string]int{"km-admins": 50, "automation-grp": 51, "staff": 52,
@@ -59,7 +62,48 @@ var c08GroupID = map[string]int{"km-admins": 50, "automation-grp": 51, "staff": 
 var c08TokName = map[string]int{"": 0, "tok-a": 11, "tok-b": 12, "tok-c": 13, "renamed": 20}
 
 // users that have a row in every fixture
-var c08Existing = []string{"alice", "bob", "carol", "admin", "gadmin", "autoadm", "svc-automation", "admin2"}
+var c08Existing = []string{"alice", "bob", "carol", "admin", "gadmin", "autoadm", "svc-automation", "admin2", "Alice", "Admin"}
+
+// a user name as a Coq term: names are byte strings in the model, (U k) is the k-th name of the table
+func c08U(name string) string {
+	id, ok := c08UserID[name]
+	if !ok {
+		return "(U 9999)"
+	}
+	return fmt.Sprintf("(U %d)", id)
+}
+
+// Definition U : N -> name, from the name table
+func c08UTable() string {
+	var ids []int
+	byID := map[int]string{}
+	for n, id := range c08UserID {
+		ids = append(ids, id)
+		byID[id] = n
+	}
+	sort.Ints(ids)
+	var sb strings.Builder
+	sb.WriteString("Definition U (k : N) : name :=\n")
+	for _, id := range ids {
+		var bs []string
+		for _, c := range []byte(byID[id]) {
+			bs = append(bs, strconv.Itoa(int(c)))
+		}
+		sb.WriteString(fmt.Sprintf("  if k =? %d then [%s] (* %q *) else\n", id, strings.Join(bs, "; "), byID[id]))
+	}
+	sb.WriteString("  [255; 255]. (* a name outside the table *)\n")
+	return sb.String()
+}
+
+// the name a token carries, as a Coq term
+func c08TName(n string) string {
+	if strings.HasPrefix(n, "Registered by ") {
+		if _, ok := c08UserID[strings.TrimPrefix(n, "Registered by ")]; ok {
+			return "(TRegBy " + c08U(strings.TrimPrefix(n, "Registered by ")) + ")"
+		}
+	}
+	return fmt.Sprintf("(TN %d)", c08NameID(n))
+}
 
 // the directory of the matrix environment (ground truth the harness wrote to groups.json)
 var c08Directory = map[string][]string{"gadmin": {"km-admins"}, "svc-grp": {"automation-grp"}, "alice": {"automation", "automation-grp-x", "staff"}, "bob": {"staff"},
@@ -331,7 +375,7 @@ func c08CanonIndex(i int64) int64 {
 
 type c08Tok struct {
 	idx     int64
-	name    int
+	name    string
 	enabled bool
 }
 
@@ -339,12 +383,12 @@ func c08Toks(n int, get func(i int) (int64, string, bool)) string {
 	var l []c08Tok
 	for i := 0; i < n; i++ {
 		idx, name, en := get(i)
-		l = append(l, c08Tok{idx, c08NameID(name), en})
+		l = append(l, c08Tok{idx, c08TName(name), en})
 	}
 	sort.Slice(l, func(a, b int) bool { return l[a].idx < l[b].idx })
 	var s []string
 	for _, x := range l {
-		s = append(s, fmt.Sprintf("T %s %d %v", coqZ(c08CanonIndex(x.idx)), x.name, x.enabled))
+		s = append(s, fmt.Sprintf("T %s %s %v", coqZ(c08CanonIndex(x.idx)), x.name, x.enabled))
 	}
 	return "[" + strings.Join(s, "; ") + "]"
 }
@@ -381,15 +425,14 @@ func c08ProjectStore(snap map[string][]byte) (string, error) {
 	sort.Strings(names)
 	var s []string
 	for _, u := range names {
-		id, ok := c08UserID[u]
-		if !ok {
+		if _, ok := c08UserID[u]; !ok {
 			return "", fmt.Errorf("unexpected row for user %q", u)
 		}
 		p, err := c08ProjectProfile(snap[u])
 		if err != nil {
 			return "", err
 		}
-		s = append(s, fmt.Sprintf("(%d, %s)", id, p))
+		s = append(s, fmt.Sprintf("(%s, %s)", c08U(u), p))
 	}
 	return "[" + strings.Join(s, "; ") + "]", nil
 }
@@ -397,26 +440,28 @@ func c08ProjectStore(snap map[string][]byte) (string, error) {
 // ---------------------------------------------------------------- cells
 
 type c08Cred struct {
-	kind  string // none | session | kmcert | ipcert
-	user  string
+	kind  string // none | session | kmcert | ipcert | login
+	user  string // login: the spelling typed into the login form
 	level int
 }
 
 func (c c08Cred) coq() string {
 	switch c.kind {
 	case "session":
-		return fmt.Sprintf("(Session %d %d)", c08UserID[c.user], c.level)
+		return fmt.Sprintf("(Session %s %d)", c08U(c.user), c.level)
 	case "kmcert":
-		return fmt.Sprintf("(KMCert %d)", c08UserID[c.user])
+		return fmt.Sprintf("(KMCert %s)", c08U(c.user))
 	case "ipcert":
-		return fmt.Sprintf("(IPCert %d)", c08UserID[c.user])
+		return fmt.Sprintf("(IPCert %s)", c08U(c.user))
+	case "login":
+		return fmt.Sprintf("(Login %s %d)", c08U(c.user), c.level)
 	}
 	return "NoCred"
 }
 
 func (c c08Cred) levelClass() string {
 	switch c.kind {
-	case "session":
+	case "session", "login":
 		if c.level&AuthTypeU2F != 0 {
 			return "u2f-session"
 		}
@@ -429,7 +474,9 @@ func (c c08Cred) levelClass() string {
 	return "no-credential"
 }
 
-func (c c08Cred) hasU2F() bool { return c.kind == "session" && c.level&AuthTypeU2F != 0 }
+func (c c08Cred) hasU2F() bool {
+	return (c.kind == "session" || c.kind == "login") && c.level&AuthTypeU2F != 0
+}
 
 func c08RoleClass(u string) string {
 	switch {
@@ -522,6 +569,54 @@ type c08Runner struct {
 	dirty   bool
 	chains  map[string][][]*x509.Certificate
 	cookies map[string]*http.Cookie
+	logins  map[string]string // spelling typed at the login form -> subject of the session the server issued
+}
+
+// the subject of the session the real login handler issues for this spelling of the name
+// (password from the htpasswd file the harness wrote: <lower-case name>pw)
+func (r *c08Runner) loginSubject(typed string) string {
+	if s, ok := r.logins[typed]; ok {
+		return s
+	}
+	form := url.Values{}
+	form.Set("username", typed)
+	form.Set("password", strings.ToLower(typed)+"pw")
+	req := verifNewRequest("POST", "/api/v0/login", form)
+	rr, _ := r.env.serve(req)
+	subject := ""
+	for _, ck := range rr.Result().Cookies() {
+		if ck.Name == authCookieName {
+			if info, err := r.env.state.getAuthInfoFromAuthJWT(ck.Value); err == nil {
+				subject = info.Username
+			}
+		}
+	}
+	if subject == "" {
+		r.res.hit(verifHit{Key: "C08:harness:login", Oracle: "harness", Kind: "harness", What: fmt.Sprintf("login as %q did not produce a session (status %d)", typed, rr.Code)})
+	}
+	// the statement's side: what the configuration says the subject has to be
+	want := typed
+	if !r.env.state.Config.Base.DisableUsernameNormalization {
+		want = strings.ToLower(typed)
+	}
+	if subject != "" && subject != want {
+		r.res.hit(verifHit{Key: "C08:login-subject:" + c08RoleClass(want), Oracle: "the session issued at login names another user than the (normalised) name that was typed",
+			What: fmt.Sprintf("login as %q (disable_username_normalization=%v) issued a session for %q", typed, r.env.state.Config.Base.DisableUsernameNormalization, subject)})
+	}
+	r.logins[typed] = subject
+	r.dirty = true
+	return subject
+}
+
+// who the request is authenticated as
+func (r *c08Runner) who(c c08Cred) string {
+	switch c.kind {
+	case "none":
+		return ""
+	case "login":
+		return r.loginSubject(c.user)
+	}
+	return c.user
 }
 
 func (r *c08Runner) chain(kind, user string) [][]*x509.Certificate {
@@ -652,6 +747,8 @@ func (r *c08Runner) request(c *c08Cell) *http.Request {
 	switch c.cred.kind {
 	case "session":
 		req.AddCookie(r.cookie(c.cred.user, c.cred.level))
+	case "login":
+		req.AddCookie(r.cookie(r.loginSubject(c.cred.user), c.cred.level))
 	case "kmcert", "ipcert":
 		withTLS(req, r.chain(c.cred.kind, c.cred.user), "10.1.2.3:34567")
 	}
@@ -687,6 +784,7 @@ func c08Changed(before, after map[string][]byte) []string {
 }
 
 func (r *c08Runner) run(c *c08Cell) {
+	who := r.who(c.cred) // may log in first (once per spelling)
 	if r.dirty || r.curVar != c.variant {
 		r.fix.reset(r.t, c.variant)
 		r.curVar = c.variant
@@ -701,18 +799,20 @@ func (r *c08Runner) run(c *c08Cell) {
 	if len(changed) > 0 {
 		r.dirty = true
 	}
-	who := c.cred.user
-	if c.cred.kind == "none" {
-		who = ""
-	}
 	desc := c.describe()
 	keyTail := fmt.Sprintf("%s:%s:%s", c.op, c08RoleClass(who), c.cred.levelClass())
 	caseInfo := map[string]interface{}{"cell": desc, "env": r.envIdx, "status": rr.Code, "changed": changed, "panicked": panicked}
 	// ---- the statement's own oracle
 	admin := c08IsAdminTruth(who) && c.cred.kind != "none" && c.cred.kind != "ipcert"
 	for _, v := range changed {
-		if v == who && c.cred.kind == "session" {
-			continue // own data
+		if v == who && (c.cred.kind == "session" || c.cred.kind == "login") {
+			continue // own data: the row stored under exactly the authenticated name
+		}
+		if !r.env.state.Config.Base.DisableUsernameNormalization && v != strings.ToLower(v) {
+			// with normalisation on nobody can be authenticated under this spelling: the row is no
+			// user's profile (the correspondence with the model still compares it)
+			r.res.bump("effect:stale-spelling-row-changed")
+			continue
 		}
 		ok := admin && (c.userAdminOp() || (c.tokenOp() && c.cred.hasU2F()))
 		if !ok {
@@ -760,6 +860,8 @@ func (r *c08Runner) run(c *c08Cell) {
 		r.res.bump("target:empty")
 	case c.target == who:
 		r.res.bump("target:self")
+	case strings.EqualFold(c.target, who):
+		r.res.bump("target:case-variant-of-actor")
 	case c.target == "newuser" || c.target == "ghost":
 		r.res.bump("target:absent-from-db")
 	default:
@@ -772,17 +874,28 @@ func (r *c08Runner) run(c *c08Cell) {
 		r.res.bump("handler-panic")
 	}
 	// ---- the cell for Coq
-	obs := "None"
-	if len(changed) > 0 {
-		s, err := c08ProjectStore(after)
-		if err != nil {
-			r.res.hit(verifHit{Key: "C08:harness:projection", Oracle: "harness", What: err.Error(), Case: caseInfo})
-			s = "[]"
+	// the rows that differ from the fixture: (name, new row | deleted); every other row is compared with the fixture
+	var delta []string
+	for _, v := range changed {
+		if _, ok := c08UserID[v]; !ok {
+			r.res.hit(verifHit{Key: "C08:harness:projection", Oracle: "harness", Kind: "harness", What: fmt.Sprintf("unexpected row for user %q", v), Case: caseInfo})
+			continue
 		}
-		obs = "(Some " + s + ")"
+		blob, present := after[v]
+		if !present {
+			delta = append(delta, fmt.Sprintf("(%s, None)", c08U(v)))
+			continue
+		}
+		pp, err := c08ProjectProfile(blob)
+		if err != nil {
+			r.res.hit(verifHit{Key: "C08:harness:projection", Oracle: "harness", Kind: "harness", What: err.Error(), Case: caseInfo})
+			continue
+		}
+		delta = append(delta, fmt.Sprintf("(%s, Some (%s))", c08U(v), pp))
 	}
-	r.cases = append(r.cases, fmt.Sprintf("(%d%%nat, %d, %s, %v, %s, %d, %s, %d, %s, %v, %s, %s)", r.envIdx, c.variant, c.cred.coq(), c.post, c.coqOp(),
-		c08UserID[c.target], c.coqIndex(), c.nameID(), c08Proofs[c.proof], c.paramsOK, class, obs))
+	obs := "[" + strings.Join(delta, "; ") + "]"
+	r.cases = append(r.cases, fmt.Sprintf("(%d%%nat, %d, %s, %v, %s, %s, %s, %d, %s, %v, %s, %s)", r.envIdx, c.variant, c.cred.coq(), c.post, c.coqOp(),
+		c08U(c.target), c.coqIndex(), c.nameID(), c08Proofs[c.proof], c.paramsOK, class, obs))
 	r.idx = append(r.idx, fmt.Sprintf("env=%d %s -> %d %s changed=%v", r.envIdx, desc, rr.Code, class, changed))
 }
 
@@ -844,6 +957,57 @@ func (r *c08Runner) matrix(levels []int, full bool) {
 				r.run(c08Canonical(op, cred, tg))
 			}
 		}
+	}
+}
+
+// spellings: the target is the actor's name in another letter case — an account of its own when
+// disable_username_normalization is set, a stale row otherwise — and sessions obtained by logging
+// in under another spelling.  Every operation; before/after of ALL rows as everywhere.
+func (r *c08Runner) caseVariants() {
+	pw, totpL, u2fL := AuthTypePassword, AuthTypePassword|AuthTypeTOTP, AuthTypePassword|AuthTypeU2F
+	type pair struct {
+		cred   c08Cred
+		target string
+	}
+	var pairs []pair
+	for _, l := range []int{pw, u2fL, totpL} {
+		pairs = append(pairs,
+			pair{c08Cred{"session", "alice", l}, "Alice"}, // another spelling of the actor: an existing row
+			pair{c08Cred{"session", "alice", l}, "ALICE"}, // ... no such row
+			pair{c08Cred{"login", "Alice", l}, "alice"},
+			pair{c08Cred{"login", "Alice", l}, "Alice"},
+			pair{c08Cred{"login", "alice", l}, "Alice"},
+			pair{c08Cred{"login", "Admin", l}, "admin"}, // a spelling of the configured administrator's name
+			pair{c08Cred{"login", "Admin", l}, "bob"},
+			pair{c08Cred{"login", "Admin", l}, "Admin"},
+			pair{c08Cred{"session", "admin", l}, "Alice"},
+			pair{c08Cred{"login", "Bob", l}, "bob"})
+	}
+	for _, op := range c08Ops {
+		if op == "RoleCert" {
+			continue
+		}
+		for _, pr := range pairs {
+			r.run(c08Canonical(op, pr.cred, pr.target))
+		}
+	}
+	for _, pr := range pairs[:10] {
+		for _, op := range []string{"ManageU2F", "ManageTOTP"} {
+			for _, a := range []string{"Update", "Disable", "Enable", "Delete"} {
+				ix := "1"
+				if op == "ManageTOTP" {
+					ix = "0"
+				}
+				r.run(&c08Cell{variant: c08VarTokens, cred: pr.cred, post: true, op: op, action: a, target: pr.target, index: ix, name: "renamed", paramsOK: true})
+			}
+		}
+		// finish steps with genuine material on a fixture with pending registrations
+		for _, op := range []string{"U2FRegFinish", "WARegFinish"} {
+			r.run(&c08Cell{variant: c08VarFull, cred: pr.cred, post: true, op: op, target: pr.target, proof: 2, paramsOK: true})
+		}
+	}
+	for _, cred := range []c08Cred{{"login", "Admin", pw}, {"login", "Alice", u2fL}} {
+		r.run(&c08Cell{variant: c08VarTokens, cred: cred, post: true, op: "RoleCert", target: "svc-automation", paramsOK: true})
 	}
 }
 
@@ -961,15 +1125,18 @@ func (r *c08Runner) sweeps(rng *mrand.Rand, thorough bool) {
 	}
 }
 
-// ---------------------------------------------------------------- IsAdminUser traces
+// ---------------------------------------------------------------- role histories (IsAdminUser / isAutomationAdmin)
 
 type c08Query struct {
-	t      time.Time
-	user   string
-	groups []string // directory's answer; nil with failed = true
-	failed bool
-	raw    int // ground truth of a fresh evaluation: 1 admin, 0 not, -1 error
-	v      bool
+	t        time.Time
+	user     string
+	auto     bool     // the question was "automation administrator?"
+	listed   bool     // the user is on Config.Base.AutomationAdmins
+	groups   []string // directory's answer; nil with failed = true
+	failed   bool
+	raw      int  // ground truth of a fresh administrator evaluation: 1 admin, 0 not, -1 error
+	v        bool // the answer
+	admKnown bool // the administrator verdict behind the answer is observable (it is the answer itself)
 }
 
 func c08TimeZ(t time.Time) string {
@@ -979,25 +1146,28 @@ func c08TimeZ(t time.Time) string {
 	return "(" + secs.String() + ")%Z"
 }
 
-// Proofs/AdminCache.v `justified`, with the statement's five minutes
+// Proofs/AdminCache.v `justified`, with the statement's five minutes, for an "administrator?"
+// answer: only administrator evaluations count (those made on behalf of an "automation
+// administrator?" question included; where such an evaluation's verdict is hidden behind the
+// list membership it is taken as whatever helps — the oracle never alarms on a guess)
 func c08Justified(hist []c08Query, q c08Query, nilCache bool) bool {
 	const W = 5 * time.Minute
 	rawIs := func(x c08Query, v bool) bool { return (v && x.raw == 1) || (!v && x.raw == 0) }
 	if rawIs(q, q.v) {
 		return true
 	}
-	last := false
+	last, lastKnown := false, true
 	for i := len(hist) - 1; i >= 0; i-- {
 		if hist[i].user == q.user {
-			last = hist[i].v
+			last, lastKnown = hist[i].v, hist[i].admKnown
 			break
 		}
 	}
-	if q.raw == -1 && (q.v == last || !q.v) {
+	if q.raw == -1 && (q.v == last || !q.v || !lastKnown) {
 		return true
 	}
 	for _, o := range hist {
-		if o.user != q.user || o.v != q.v {
+		if o.user != q.user || (o.admKnown && o.v != q.v) {
 			continue
 		}
 		if q.t.Sub(o.t) < W && (rawIs(o, q.v) || o.raw == -1) {
@@ -1011,10 +1181,11 @@ func (r *c08Runner) traces(rng *mrand.Rand, thorough bool) (cases, idx []string)
 	t, env := r.t, r.env
 	st := env.state
 	worlds := []map[string][]string{
-		{"km-admins": {"gadmin"}, "staff": {"alice", "dave"}},
-		{"km-admins": {"alice"}, "staff": {"dave"}, "km-admins-ro": {"dave", "gadmin"}, "km-admin": {"dave"}, "KM-ADMINS": {"gadmin"}},
+		{"km-admins": {"gadmin"}, "staff": {"alice", "dave", "autoadm"}},
+		{"km-admins": {"alice"}, "staff": {"dave"}, "km-admins-ro": {"dave", "gadmin", "autoadm"}, "km-admin": {"dave"}, "KM-ADMINS": {"gadmin", "autoadm"}},
 		{"km-admins": {"dave", "gadmin"}, "staff": {"alice", "gadmin"}},
 		{"km-admins": {}, "staff": {}},
+		{"km-admins": {"autoadm"}, "staff": {"alice"}},
 	}
 	var dbs []*gitdb.UserInfo
 	for i, w := range worlds {
@@ -1044,13 +1215,30 @@ func (r *c08Runner) traces(rng *mrand.Rand, thorough bool) (cases, idx []string)
 	}()
 	var now time.Time
 	admincache.VerifSetClock(st.isAdminCache, func() time.Time { return now })
-	users := []string{"admin", "gadmin", "alice", "dave"}
+	// plain users, administrators by name and by group, an automation administrator, a look-alike
+	users := []string{"admin", "gadmin", "alice", "dave", "autoadm", "autoadm", "autoadm2"}
+	listed := func(u string) bool {
+		for _, a := range st.Config.Base.AutomationAdmins {
+			if a == u {
+				return true
+			}
+		}
+		return false
+	}
 	steps := []time.Duration{0, 1, time.Second, 30 * time.Second, 5*time.Minute - 1, 5 * time.Minute, 5*time.Minute + 1, 10 * time.Minute, time.Hour, 4 * time.Minute, -time.Minute}
-	nTraces := 250
+	nTraces := 300
 	if thorough {
 		nTraces = 3000
 	}
 	u2fCookie := map[string]*http.Cookie{}
+	cookieOf := func(user string) *http.Cookie {
+		ck := u2fCookie[user]
+		if ck == nil {
+			ck = env.cookie(user, AuthTypePassword|AuthTypeU2F)
+			u2fCookie[user] = ck
+		}
+		return ck
+	}
 	for tr := 0; tr < nTraces; tr++ {
 		nilCache := tr%29 == 28
 		if nilCache {
@@ -1086,7 +1274,7 @@ func (r *c08Runner) traces(rng *mrand.Rand, thorough bool) (cases, idx []string)
 			} else {
 				st.Config.UserInfo.Ldap.LDAPTargetURLs = ""
 			}
-			q := c08Query{t: now, user: user, failed: failing}
+			q := c08Query{t: now, user: user, failed: failing, auto: rng.Intn(10) < 4, listed: listed(user)}
 			if !failing {
 				q.groups = groupsOf(world, user)
 			}
@@ -1104,26 +1292,68 @@ func (r *c08Runner) traces(rng *mrand.Rand, thorough bool) (cases, idx []string)
 				}
 			}
 			via := "call"
-			if rng.Intn(3) == 0 {
-				via = "GET /users/"
-				ck := u2fCookie[user]
-				if ck == nil {
-					ck = env.cookie(user, AuthTypePassword|AuthTypeU2F)
-					u2fCookie[user] = ck
+			httpOp := ""
+			if q.auto {
+				// "automation administrator?": the role-certificate endpoint asks it for the requester
+				if rng.Intn(2) == 0 {
+					via = "GET " + getRoleRequestingPath
+					httpOp = "RoleCert"
+					req := verifNewRequest("GET", getRoleRequestingPath, nil)
+					req.AddCookie(cookieOf(user))
+					rr, _ := env.serve(req)
+					switch rr.Code {
+					case 405: // past the role test, refused for the method
+						q.v = true
+					case 403:
+						q.v = false
+					default:
+						r.res.hit(verifHit{Key: "C08:harness:rolecert-status", Oracle: "harness", Kind: "harness", What: fmt.Sprintf("GET %s as %s: %d", getRoleRequestingPath, user, rr.Code), Case: human})
+					}
+				} else {
+					via = "call isAutomationAdmin"
+					q.v = st.isAutomationAdmin(user)
 				}
-				req := verifNewRequest("GET", usersPath, nil)
-				req.AddCookie(ck)
-				rr, _ := env.serve(req)
-				switch rr.Code {
-				case 200:
-					q.v = true
-				case 401:
-					q.v = false
-				default:
-					r.res.hit(verifHit{Key: "C08:harness:users-status", Oracle: "harness", What: fmt.Sprintf("GET /users/ as %s: %d", user, rr.Code), Case: human})
-				}
+				q.admKnown = !q.listed || !q.v
 			} else {
-				q.v = st.IsAdminUser(user)
+				q.admKnown = true
+				switch rng.Intn(4) {
+				case 0:
+					via = "GET " + usersPath
+					httpOp = "ListUsers"
+					req := verifNewRequest("GET", usersPath, nil)
+					req.AddCookie(cookieOf(user))
+					rr, _ := env.serve(req)
+					switch rr.Code {
+					case 200:
+						q.v = true
+					case 401, 403:
+						q.v = false
+					default:
+						r.res.hit(verifHit{Key: "C08:harness:users-status", Oracle: "harness", Kind: "harness", What: fmt.Sprintf("GET /users/ as %s: %d", user, rr.Code), Case: human})
+					}
+				case 1:
+					via = "POST " + addUserPath
+					httpOp = "AddUser"
+					form := url.Values{}
+					form.Set("username", "tracenew")
+					req := verifNewRequest("POST", addUserPath, form)
+					req.AddCookie(cookieOf(user))
+					rr, _ := env.serve(req)
+					_, existed, _, _ := st.LoadUserProfile("tracenew")
+					if existed {
+						st.DeleteUserProfile("tracenew")
+					}
+					switch {
+					case rr.Code == 200 && existed:
+						q.v = true
+					case (rr.Code == 401 || rr.Code == 403) && !existed:
+						q.v = false
+					default:
+						r.res.hit(verifHit{Key: "C08:harness:adduser-status", Oracle: "harness", Kind: "harness", What: fmt.Sprintf("POST %s as %s: %d, row created: %v", addUserPath, user, rr.Code, existed), Case: human})
+					}
+				default:
+					q.v = st.IsAdminUser(user)
+				}
 			}
 			ans := "None"
 			if !failing {
@@ -1133,24 +1363,42 @@ func (r *c08Runner) traces(rng *mrand.Rand, thorough bool) (cases, idx []string)
 				}
 				ans = "(Some [" + strings.Join(ids, "; ") + "])"
 			}
-			coq = append(coq, fmt.Sprintf("(%s, %s, %d, %s)", c08TimeZ(now), c08TimeZ(now), c08UserID[user], ans))
-			human = append(human, fmt.Sprintf("%s %s world=%d down=%v groups=%v via %s -> %v", now.Format("15:04:05.000000000"), user, world, failing, q.groups, via, q.v))
-			r.res.eval(fmt.Sprintf("trace|%d|%d|%s|%v", tr, i, user, q.v), q.v)
+			kind := "KAdmin"
+			if q.auto {
+				kind = "KAutoAdmin"
+			}
+			coq = append(coq, fmt.Sprintf("(%s, %s, %s, %s, %s)", kind, c08TimeZ(now), c08TimeZ(now), c08U(user), ans))
+			human = append(human, fmt.Sprintf("%s %s %s world=%d down=%v groups=%v via %s -> %v", now.Format("15:04:05.000000000"), kind, user, world, failing, q.groups, via, q.v))
+			r.res.eval(fmt.Sprintf("trace|%d|%d|%s|%s|%v", tr, i, kind, user, q.v), q.v)
 			r.res.bump("trace-query:" + via)
+			r.res.bump("trace-kind:" + kind)
 			if failing {
 				r.res.bump("trace-query:directory-down")
 			}
 			if q.v {
-				r.res.bump("trace-verdict:admin")
+				r.res.bump("trace-verdict:" + kind + ":yes")
 			}
-			if !c08Justified(hist, q, nilCache) {
+			if q.auto {
+				// "automation administrator: yes" needs an administrator verdict that is justified, or the list
+				if q.v && !q.listed && !c08Justified(hist, q, nilCache) {
+					r.res.hit(verifHit{Key: "C08:roles:automation-admin-unjustified:" + c08RoleClass(user),
+						Oracle: "somebody who is neither on the automation administrators' list nor (justifiably, within five minutes) an administrator was treated as automation administrator",
+						What:   fmt.Sprintf("isAutomationAdmin(%s)=true at %s; history: %s", user, now.Format("15:04:05.000000000"), strings.Join(human, " | ")), Case: human})
+				}
+			} else if !c08Justified(hist, q, nilCache) {
 				k := "refused"
 				if q.v {
 					k = "granted"
 				}
-				r.res.hit(verifHit{Key: "C08:cache:unjustified-verdict:" + k,
-					Oracle: "the admin verdict is neither what the directory says now, nor what it said (or its failure) at a query less than five minutes ago, nor the previous verdict repeated during a failure",
-					What:   fmt.Sprintf("IsAdminUser(%s)=%v at %s; history: %s", user, q.v, now.Format("15:04:05.000000000"), strings.Join(human, " | ")), Case: human})
+				key := "C08:cache:unjustified-verdict:" + k
+				oracle := "the admin verdict is neither what the directory says now, nor what an administrator evaluation less than five minutes ago said (or its failure), nor the previous verdict repeated during a failure"
+				if httpOp != "" && q.v {
+					// the statement's own words: a non-administrator performed an administration operation
+					key = fmt.Sprintf("C08:history:non-admin-admin-op:%s:%s", httpOp, c08RoleClass(user))
+					oracle = "a user whom neither the configured names nor the directory make an administrator (now or at any administrator evaluation of the last five minutes) performed a user-administration operation"
+				}
+				r.res.hit(verifHit{Key: key, Oracle: oracle,
+					What: fmt.Sprintf("administrator verdict for %s = %v at %s (via %s); history of role lookups: %s", user, q.v, now.Format("15:04:05.000000000"), via, strings.Join(human, " | ")), Case: human})
 			}
 			hist = append(hist, q)
 		}
@@ -1194,6 +1442,14 @@ func c08ShardMismatches(bad string, shards []c08Shard) string {
 	return strings.Join(parts, " ++ ")
 }
 
+func c08CoqNames(names []string) string {
+	var s []string
+	for _, x := range names {
+		s = append(s, c08U(x))
+	}
+	return "[" + strings.Join(s, "; ") + "]"
+}
+
 func c08CoqList(ids []string, m map[string]int) string {
 	var s []string
 	for _, x := range ids {
@@ -1211,7 +1467,10 @@ func TestVerif_C08(t *testing.T) {
 		{"password", "TOTP", "U2F", "SymantecVIP", "Okta2FA", "BootstrapOTP", "federated"},
 		{"U2F"},
 		{"TOTP", "U2F"},
+		// the same as the first, with disable_username_normalization: names differing in letter case are different users
+		{"password", "TOTP", "U2F", "SymantecVIP", "Okta2FA", "BootstrapOTP", "federated"},
 	}
+	caseSensitiveEnv := 3
 	keys := verifNewKeys()
 	var cfgCoq, fixtureCoq []string
 	var allCases, allIdx []string
@@ -1228,6 +1487,15 @@ func TestVerif_C08(t *testing.T) {
 			c.Base.AutomationUserGroups = []string{"automation-grp"}
 			c.Base.AutomationAdmins = []string{"autoadm"}
 			c.Base.EnableLocalTOTP = true
+			c.Base.DisableUsernameNormalization = ei == caseSensitiveEnv
+			// accounts whose names differ from existing ones in letter case only (password: <lower case name>pw)
+			if f, err := os.OpenFile(c.Base.HtpasswdFilename, os.O_APPEND|os.O_WRONLY, 0644); err == nil {
+				for _, u := range []string{"Alice", "Admin", "Bob"} {
+					h, _ := bcrypt.GenerateFromPassword([]byte(strings.ToLower(u)+"pw"), 4)
+					f.WriteString("\n" + u + ":" + strings.Replace(string(h), "$2a$", "$2y$", 1) + "\n")
+				}
+				f.Close()
+			}
 			gdir := filepath.Join(dir, "userinfo")
 			groups := map[string][]string{}
 			for u, gs := range c08Directory {
@@ -1244,12 +1512,12 @@ func TestVerif_C08(t *testing.T) {
 			t.Fatal("configuration path did not build the group directory / the admin cache")
 		}
 		fix := c08NewFix(t, env)
-		r := &c08Runner{t: t, env: env, fix: fix, res: res, keys: keys, envIdx: ei, curVar: -1, chains: map[string][][]*x509.Certificate{}, cookies: map[string]*http.Cookie{}}
+		r := &c08Runner{t: t, env: env, fix: fix, res: res, keys: keys, envIdx: ei, curVar: -1, chains: map[string][][]*x509.Certificate{}, cookies: map[string]*http.Cookie{}, logins: map[string]string{}}
 		// the configuration the model is evaluated with: read back from the loaded state
 		cb := st.Config.Base
-		cfgCoq = append(cfgCoq, fmt.Sprintf("{| admin_users := %s; admin_groups := %s; automation_users := %s; automation_user_groups := %s; automation_admins := %s; webui_required := %d |}",
-			c08CoqList(cb.AdminUsers, c08UserID), c08CoqList(cb.AdminGroups, c08GroupID), c08CoqList(cb.AutomationUsers, c08UserID),
-			c08CoqList(cb.AutomationUserGroups, c08GroupID), c08CoqList(cb.AutomationAdmins, c08UserID), st.getRequiredWebUIAuthLevel()))
+		cfgCoq = append(cfgCoq, fmt.Sprintf("{| admin_users := %s; admin_groups := %s; automation_users := %s; automation_user_groups := %s; automation_admins := %s; webui_required := %d; disable_normalisation := %v |}",
+			c08CoqNames(cb.AdminUsers), c08CoqList(cb.AdminGroups, c08GroupID), c08CoqNames(cb.AutomationUsers),
+			c08CoqList(cb.AutomationUserGroups, c08GroupID), c08CoqNames(cb.AutomationAdmins), st.getRequiredWebUIAuthLevel(), cb.DisableUsernameNormalization))
 		if ei == 0 {
 			for v := 0; v < 3; v++ {
 				fix.reset(t, v)
@@ -1269,6 +1537,9 @@ func TestVerif_C08(t *testing.T) {
 			levels = append(levels, moreLevels...)
 		}
 		r.matrix(levels, ei == 0 || thorough)
+		if ei == 0 || ei == caseSensitiveEnv {
+			r.caseVariants()
+		}
 		if ei == 0 {
 			r.sweeps(rng, thorough)
 			traceCases, traceIdx = r.traces(rng, thorough)
@@ -1297,10 +1568,11 @@ func TestVerif_C08(t *testing.T) {
 	var sb strings.Builder
 	sb.WriteString(coqCaseHeader)
 	sb.WriteString("From KM Require Import Base.Cases Model.Auth Model.Authz Model.AdminCache.\nOpen Scope N_scope.\n")
-	sb.WriteString("Definition T (i : Z) (n : N) (e : bool) : Z * tok := (i, {| tk_name := n; tk_enabled := e |}).\n")
+	sb.WriteString(c08UTable())
+	sb.WriteString("Definition T (i : Z) (n : tname) (e : bool) : Z * tok := (i, {| tk_name := n; tk_enabled := e |}).\n")
 	sb.WriteString("Definition P (u w t : tokens) (a b c d e : bool) : profile := {| p_u2f := u; p_wa := w; p_totp := t; p_regchal := a; p_pending_totp := b; p_wa_session := c; p_bootstrap := d; p_registered := e |}.\n")
 	sb.WriteString("Definition cfgs : list cfg := [\n " + strings.Join(cfgCoq, ";\n ") + "].\n")
-	sb.WriteString("Definition cfg_of (i : nat) : cfg := nth i cfgs {| admin_users := []; admin_groups := []; automation_users := []; automation_user_groups := []; automation_admins := []; webui_required := 0 |}.\n")
+	sb.WriteString("Definition cfg_of (i : nat) : cfg := nth i cfgs {| admin_users := []; admin_groups := []; automation_users := []; automation_user_groups := []; automation_admins := []; webui_required := 0; disable_normalisation := false |}.\n")
 	// the directory the harness wrote
 	var dirLines []string
 	var dn []string
@@ -1309,9 +1581,9 @@ func TestVerif_C08(t *testing.T) {
 	}
 	sort.Strings(dn)
 	for _, u := range dn {
-		dirLines = append(dirLines, fmt.Sprintf("if u =? %d then Some %s else", c08UserID[u], c08CoqList(c08Directory[u], c08GroupID)))
+		dirLines = append(dirLines, fmt.Sprintf("if bs_eqb u %s then Some %s else", c08U(u), c08CoqList(c08Directory[u], c08GroupID)))
 	}
-	sb.WriteString("Definition dir_of (u : N) : answer := " + strings.Join(dirLines, " ") + " Some [].\n")
+	sb.WriteString("Definition dir_of (u : name) : answer := " + strings.Join(dirLines, " ") + " Some [].\n")
 	sb.WriteString("Definition fixtures : list store := [\n " + strings.Join(fixtureCoq, ";\n ") + "].\n")
 	sb.WriteString("Definition fixture (v : N) : store := nth (N.to_nat v) fixtures [].\n")
 	var uni []string
@@ -1321,28 +1593,29 @@ func TestVerif_C08(t *testing.T) {
 	}
 	sort.Ints(ids)
 	for _, id := range ids {
-		uni = append(uni, strconv.Itoa(id))
+		uni = append(uni, fmt.Sprintf("U %d", id))
 	}
-	sb.WriteString("Definition universe : list N := [" + strings.Join(uni, "; ") + "].\n")
-	sb.WriteString("Definition cred_user (cr : cred) : N := match cr with NoCred => 0 | Session u _ => u | KMCert u => u | IPCert u => u end.\n")
-	sb.WriteString("Definition adm_of (c : cfg) (u : N) : bool := match raw_is_admin c u (dir_of u) with Some b => b | None => false end.\n")
-	sb.WriteString("Definition cell := (nat * N * cred * bool * op * N * option Z * N * proof * bool * resp * option store)%type.\n")
+	sb.WriteString("Definition universe : list name := [" + strings.Join(uni, "; ") + "].\n")
+	sb.WriteString("Definition cred_user (cr : cred) : name := match cr with NoCred => [] | Session u _ => u | KMCert u => u | IPCert u => u | Login u _ => u end.\n")
+	sb.WriteString("Definition adm_of (c : cfg) (u : name) : bool := match raw_is_admin c u (dir_of u) with Some b => b | None => false end.\n")
+	sb.WriteString("Definition cell := (nat * N * cred * bool * op * name * option Z * N * proof * bool * resp * list (name * option profile))%type.\n")
+	sb.WriteString("Definition apply_delta (s : store) (d : list (name * option profile)) : store := fold_left (fun a (x : name * option profile) => match snd x with Some p => save a (fst x) p | None => remove a (fst x) end) d s.\n")
 	// shards: a single list literal of tens of thousands of cells overflows coqc's stack
 	cellShards := c08Shards(&sb, "cells", "cell", allCases, 3000)
 	sb.WriteString(`Definition bad_cell (x : cell) : bool :=
   let '(e, v, cr, post, o, tg, ix, nm, pr, pok, obs_resp, obs_store) := x in
   let c := cfg_of e in
   let r := {| r_cred := cr; r_post := post; r_op := o; r_target := tg; r_index := ix; r_name := nm; r_proof := pr;
-              r_adm := adm_of c (cred_user cr); r_dir_target := dir_of tg; r_params_ok := pok |} in
+              r_adm := adm_of c (cred_user (resolve c cr)); r_dir_target := dir_of tg; r_params_ok := pok |} in
   let '(s', x') := step c (fixture v) r in
-  negb (resp_eqb x' obs_resp && stores_agree universe s' (match obs_store with Some s => s | None => fixture v end)).
+  negb (resp_eqb x' obs_resp && stores_agree universe s' (apply_delta (fixture v) obs_store)).
 `)
 	sb.WriteString(fmt.Sprintf("Definition c08_ncases := %d%%N.\nPrint c08_ncases.\n", len(allCases)))
 	sb.WriteString("Definition c08_mismatches := Eval vm_compute in (" + c08ShardMismatches("bad_cell", cellShards) + ").\nPrint c08_mismatches.\n")
 	// of the cells that passed authentication, how many the model allows / denies (printed for the evidence)
-	traceShards := c08Shards(&sb, "trace_cases", "(bool * list (Z * Z * N * answer) * list bool)", traceCases, 400)
+	traceShards := c08Shards(&sb, "trace_cases", "(bool * list (rkind * Z * Z * name * answer) * list bool)", traceCases, 400)
 	sb.WriteString(fmt.Sprintf("Definition c08_ntraces := %d%%N.\nPrint c08_ntraces.\n", len(traceCases)))
-	sb.WriteString("Definition bad_trace (x : bool * list (Z * Z * N * answer) * list bool) : bool := let '(isnil, qs, obs) := x in negb (bools_eqb (verdicts five_minutes (if isnil then None else Some []) (map (fun q => let '(t, tp, u, a) := q in {| q_t := t; q_tp := tp; q_user := u; q_raw := raw_is_admin (cfg_of 0) u a |}) qs)) obs).\n")
+	sb.WriteString("Definition bad_trace (x : bool * list (rkind * Z * Z * name * answer) * list bool) : bool := let '(isnil, qs, obs) := x in negb (bools_eqb (ranswers five_minutes (if isnil then None else Some []) (map (fun q => let '(k, t, tp, u, a) := q in {| rq_kind := k; rq_q := {| q_t := t; q_tp := tp; q_user := u; q_raw := raw_is_admin (cfg_of 0) u a |}; rq_listed := memn u (automation_admins (cfg_of 0)) |}) qs)) obs).\n")
 	sb.WriteString("Definition c08_trace_mismatches := Eval vm_compute in (" + c08ShardMismatches("bad_trace", traceShards) + ").\nPrint c08_trace_mismatches.\n")
 	if err := ioutil.WriteFile(filepath.Join(verifOut(), "CasesC08.v"), []byte(sb.String()), 0644); err != nil {
 		t.Fatal(err)
